@@ -508,8 +508,8 @@ fn diagnose(spec: &str, repo: &str, kind: &str, gix_err: &str) -> Option<&'stati
     if spec.contains("^-") && kind == "gix-rejects-what-git-resolves" && gix_err.contains("could not be parsed: \"-") {
         return Some("parent-range-shorthand-needs-plain-name");
     }
-    if spec.contains("^-") && kind == "differs" && groups >= 1 {
-        return Some("parent-range-shorthand-ignores-at-brace-group");
+    if spec.contains("^-") && kind == "differs" {
+        return Some("parent-range-shorthand-ignores-preceding-navigation");
     }
     if spec.starts_with(":/") && (spec.contains("^!") || spec.contains("^@") || spec.contains("^-")) {
         return Some("top-level-regex-swallows-parent-shorthand");
